@@ -7,10 +7,10 @@ from rules import common
 
 CLAIMED = True
 TECHNIQUE = "static analysis over type-checked MIR: decision-table extraction of the colour-mode initialiser and writer selection, truth table of do_write, static-read dependence of the tty decision, value-set dataflow discharging every bounds/overflow assert of the SGR buffer, store/offset table of the SGR sequence, highlight set/reset level-set agreement, forwarding-wrapper agreement of the console writer stack"
-LEVEL_TEXT = """Static decision of: (X1) the COLOR_MODE initialiser as a decision table over the three flags (NO_COLOR, CLICOLOR_FORCE, CLICOLOR read with env::var(NAME).map(|v| v != "0").unwrap_or(default), defaults false/false/true): Never if NO_COLOR, else Always if CLICOLOR_FORCE, else Never if !CLICOLOR, else Auto; (X2) imp::Writer::{stdout,stderr}: Auto => Some iff isatty(fd)==1 with the matching fd, Always => Some, Never => None; (X3) do_write has the truth table is_tty OR NOT tty_only, append encodes only on the do_write edge, the stream matches Target; (X4) the tty operand of X3 must not depend on COLOR_MODE (today it does: known finding D4); (X5) every bounds/overflow assert and the final range index of AnsiWriter::set_style is discharged by index value sets against the buffer length; (X6) SGR shape as a store table: prefix ESC [ 0, text arm ;3<color>, background arm ;4<color>, intense ;1 / ;22, terminator m, contiguous offsets and matching index increments, slice ends at the terminator, color_byte injective onto '0'..'7' in SGR order; (X7) the set of levels for which Highlight sets a style equals the set for which it resets afterwards; (W1) the console wrapper stack forwards io::Write and set_style. What a terminal renders and pty behaviour are not decided. (X3, cont.) ConsoleAppender::append makes no write/write_all/write_fmt/set_style call of its own."""
+LEVEL_TEXT = """Static decision of: (X1) the COLOR_MODE initialiser as a decision table over the three flags (NO_COLOR, CLICOLOR_FORCE, CLICOLOR read with env::var(NAME).map(|v| v != "0").unwrap_or(default), defaults false/false/true): Never if NO_COLOR, else Always if CLICOLOR_FORCE, else Never if !CLICOLOR, else Auto; (X2) imp::Writer::{stdout,stderr}: Auto => Some iff isatty(fd)==1 with the matching fd, Always => Some, Never => None; (X3) do_write has the truth table is_tty OR NOT tty_only, append encodes only on the do_write edge, the stream matches Target; (X4) the tty operand of X3 must not depend on COLOR_MODE (today it does: known finding D4); (X5) every bounds/overflow assert and the final range index of AnsiWriter::set_style is discharged by index value sets against the buffer length; (X6) SGR shape as a store table: prefix ESC [ 0, text arm ;3<color>, background arm ;4<color>, intense ;1 / ;22, terminator m, contiguous offsets and matching index increments, slice ends at the terminator, color_byte injective onto '0'..'7' in SGR order; (X7) the set of levels for which Highlight sets a style equals the set for which it resets afterwards; (W1) the console wrapper stack forwards io::Write and set_style. What a terminal renders and pty behaviour are not decided. (X3, cont.) ConsoleAppender::append makes no write/write_all/write_fmt/set_style call of its own. (X12) in ConsoleAppender::append the encoder call is control-dependent on the write flag only and encodes the record it was handed: nothing taken from the record decides whether it is written."""
 LEVEL_NOTE = "Trusted: rustc MIR/callee resolution; libc::isatty; std::env::var; once_cell::Lazy evaluates the initialiser once. cfg(windows) code is not compiled here and is not analysed."
 EXPLANATION = """Decided: X1 colour decision table, X2 writer selection, X3 do_write table + gating + stream, X4 tty-independence (reports known finding D4), X5 SGR buffer bounds by value sets, X6 SGR store table, X7 highlight pairing, W1 forwarding. Undecided: terminal rendering, pty behaviour, Windows console path (not compiled)."""
-DECIDED = ["X1", "X2", "X3", "X4 (known finding D4)", "X5", "X6", "X7", "W1", "X7 highlight pairing by levels and children loops", "X8 style requests travel through every wrapper", "X9/X10 Style and the console builder keep what they are given"]
+DECIDED = ["X1", "X2", "X3", "X4 (known finding D4)", "X5", "X6", "X7", "W1", "X7 highlight pairing by levels and children loops", "X8 style requests travel through every wrapper", "X9/X10 Style and the console builder keep what they are given", "X12 the encoder call in ConsoleAppender::append stands under the write flag only"]
 UNDECIDED = ["terminal rendering / pty behaviour", "cfg(windows) console code"]
 TRUSTED = ["rustc nightly MIR + Instance::try_resolve", "libc::isatty", "std::env::var", "once_cell::sync::Lazy"]
 
@@ -29,6 +29,31 @@ WRAPPERS = ["encode::writer::simple::SimpleWriter<W>", "encode::writer::ansi::An
 STYLE_FORWARDERS = ["encode::writer::console::ConsoleWriter", "encode::writer::console::ConsoleWriterLock<'a>", "encode::writer::console::imp::Writer",
                     "encode::writer::console::imp::WriterLock<'a>", "append::console::WriterLock<'a>", "encode::pattern::MaxWidthWriter<'a>",
                     "encode::pattern::LeftAlignWriter<W>", "&'a mut W"]
+
+
+def rule_unconditional_write(ctx, p, cfg, rid="X12"):
+    """"an unrestricted one always writes the encoded text": in ConsoleAppender::append the encoder call stands under the
+    appender's own write flag (decided when it was built, X3) and under nothing taken from the record"""
+    with ctx.rule(rid, "the record decides nothing about being written", cfg) as r:
+        f = p.fn(APPEND)
+        en = [c for c in f.calls() if (c.callee or "") == "encode::Encode::encode"]
+        r.require(len(en) == 1, "one-encode-site", fn=f, detail="encoder call sites in ConsoleAppender::append: %d" % len(en))
+        adt = p.adt("append::console::ConsoleAppender")
+        bools = [x["name"] for x in adt["variants"][0]["fields"] if x["ty"] == "bool"]
+        for c in en:
+            extra = []
+            for sb, si, al in f.conditions(c.block):
+                d = deep_strip(si.discr)
+                inner = deep_strip(d[2]) if d[0] == "un" and d[1] == "Not" else d
+                if inner[0] == "field" and inner[1] == ("param", 1) and inner[2] in bools:
+                    continue
+                if d[0] == "discr" and not any(x == ("param", 2) for x in walk(d)):
+                    continue   # the success edge of an earlier fallible step (lock, ..) that does not look at the record
+                extra.append(show(si.discr, 4))
+            r.require(not extra, "encode-under-the-write-flag-only", fn=f, site=c.at,
+                      detail="the encoder call is control-dependent on self.%s only" % (bools[0] if bools else "?"),
+                      fail_detail="ConsoleAppender::append reaches its encoder only when %s: a record the appender was handed can be left unwritten on an unrestricted console" % extra)
+            r.require(deep_strip(c.arg(2)) == ("param", 2), "encodes-the-record", fn=f, site=c.at, detail="the record handed to append is the one encoded")
 
 
 def run(ctx):
@@ -59,6 +84,7 @@ def run_cfg(ctx, p, cfg):
     accessors.rule_fidelity(ctx, p, cfg, "X9", prefix="encode::", floor=3, with_build=False)           # "exactly the requested attributes": Style keeps the colour / intensity it is given, Some(value) for every value
     accessors.rule_fidelity(ctx, p, cfg, "X10", prefix="append::console::", floor=3, with_build=False)  # the builder keeps target, tty_only and encoder
     rule_style_forwarding(ctx, p, cfg, "X8")
+    rule_unconditional_write(ctx, p, cfg, "X12")
     from rules import c12
     c12.rule_console_stream_exclusive(ctx, p, cfg, "X11")   # "each highlighted group followed by a reset": a record's bytes are not interleaved with another thread's on the same stream
     with ctx.rule("X1", "colour decision", cfg) as r:
